@@ -5,7 +5,20 @@ From UEC Require Import Base.Wire Push.Stack.
 Import ListNotations.
 Local Open Scope Z_scope.
 
-Definition dec_op (t : tree) : option (op Z) :=
+(* a history step: a stack operation, or a bulk insertion by an exact-size iterator of a CLAIMED length far too
+   large to write down (the harness only generates it where it cannot fit) *)
+Inductive cop := Op (o : op Z) | PushManyClaimed (n : N).
+Definition cstep (s : sstack Z) (c : cop) : sstack Z * res Z :=
+  match c with
+  | Op o => sstep s o
+  | PushManyClaimed n => if (smax s <? n + ssize s)%N then (s, ROverflow) else (s, RNum 0)   (* else: never generated *)
+  end.
+(* it is exactly what push_many does with any list of that length *)
+Lemma claimed_is_push_many s l : (smax s <? N.of_nat (length l) + ssize s)%N = true ->
+  cstep s (PushManyClaimed (N.of_nat (length l))) = sstep s (OPushMany l).
+Proof. intros H. cbn [cstep sstep]. now rewrite H. Qed.
+
+Definition dec_op0 (t : tree) : option (op Z) :=
   match t with
   | L [A 0; A v] => Some (OPush v)
   | L [A 1] => Some OPop | L [A 2] => Some OPop2 | L [A 3] => Some OPop3
@@ -16,7 +29,13 @@ Definition dec_op (t : tree) : option (op Z) :=
   | L [A 10; n] => olet n := tN n in Some (OSetMax n)
   | L [A 11] => Some OSize | L [A 12] => Some OIsEmpty | L [A 13] => Some OIsFull
   | L [A 14] => Some OMax
+  | L [A 15; l] => olet l := tlist tZ l in Some (OTryExtend l)   (* an iterator with no upper size hint *)
   | _ => None
+  end.
+Definition dec_op (t : tree) : option cop :=
+  match t with
+  | L [A 16; n] => olet n := tN n in Some (PushManyClaimed n)
+  | _ => olet o := dec_op0 t in Some (Op o)
   end.
 
 (* an observed result; [None] inside = the implementation panicked *)
@@ -66,21 +85,21 @@ Definition obs_matches (s : sstack Z) (r : res Z) (o : obs) : bool :=
   end.
 
 (* agreement with the model run from the initial state *)
-Fixpoint agree (s : sstack Z) (h : list (op Z)) (os : list obs) : bool :=
+Fixpoint agree (s : sstack Z) (h : list cop) (os : list obs) : bool :=
   match h, os with
   | [], [] => true
   | o :: h', ob :: os' =>
-    let '(s1, r) := sstep s o in obs_matches s1 r ob && agree s1 h' os'
+    let '(s1, r) := cstep s o in obs_matches s1 r ob && agree s1 h' os'
   | _, _ => false
   end.
 
 (* the property evaluated on the implementation's own observations: every
    observed transition is the LIFO transition from the state observed before it *)
-Fixpoint holds (pre : sstack Z) (h : list (op Z)) (os : list obs) : bool :=
+Fixpoint holds (pre : sstack Z) (h : list cop) (os : list obs) : bool :=
   match h, os with
   | [], [] => true
   | o :: h', ob :: os' =>
-    let '(s1, r) := sstep pre o in
+    let '(s1, r) := cstep pre o in
     obs_matches s1 r ob && holds (SS (o_max ob) (o_elems ob)) h' os'
   | _, _ => false
   end.
@@ -102,10 +121,10 @@ Definition enc_res (r : res Z) : list Z :=
   | RUnit => [0] | RVals l => 1 :: l | RNum n => [2; Z.of_N n] | RBool b => [3; if b then 1 else 0]
   | RUnderflow a b => [4; Z.of_N a; Z.of_N b] | ROverflow => [5]
   end.
-Fixpoint model_trace (s : sstack Z) (h : list (op Z)) : list (list Z * list Z * Z) :=
+Fixpoint model_trace (s : sstack Z) (h : list cop) : list (list Z * list Z * Z) :=
   match h with
   | [] => []
-  | o :: h' => let '(s1, r) := sstep s o in (enc_res r, elems s1, Z.of_N (smax s1)) :: model_trace s1 h'
+  | o :: h' => let '(s1, r) := cstep s o in (enc_res r, elems s1, Z.of_N (smax s1)) :: model_trace s1 h'
   end.
 Definition show (t : tree) : option (list (list Z * list Z * Z)) :=
   match t with
